@@ -429,8 +429,15 @@ impl Client {
                 };
                 match self.held.remove(&(k, a[0])) {
                     Some(list) => {
+                        // one destructor at a time: a destructor that panics while another panic unwinds aborts the process
+                        let mut panicked = false;
                         for (_h, handle) in list {
-                            drop(handle);
+                            if vcommon::catch(move || drop(handle)).is_err() {
+                                panicked = true;
+                            }
+                        }
+                        if panicked {
+                            panic!("a handle's destructor panicked");
                         }
                         ok_list(&[1])
                     },
@@ -599,7 +606,11 @@ fn run_case(line: &str, log_file: &str) -> String {
             }
             // handles go first, then the buffers
             let held = std::mem::take(&mut client.held);
-            let _ = vcommon::catch(move || drop(held));
+            for (_k, list) in held {
+                for (_h, handle) in list {
+                    let _ = vcommon::catch(move || drop(handle));
+                }
+            }
             drop(tx);
             // the conductor is never freed (Arc cycle in the implementation): keep its buffers alive too
             std::mem::forget(client);
